@@ -1,18 +1,21 @@
 import Tea.Proofs.Lifecycle
 /-
-The rank argument for C04: every progress step (the internal steps of Run's start-up included)
-and every return of the start-up's user code strictly decreases `rank`, no other step except
+The rank argument for C04: every progress step (the internal steps of Run's start-up and of an Exec
+included) strictly decreases `rank`, every return of user code decreases `rank` or the user code in
+progress (`sched`), no other step except
 `killCall` increases it, the no-deadlock lemma, and their combination.
 -/
 namespace Tea.Runtime.Life
+set_option linter.unusedSimpArgs false
 
 theorem rank_setKiller (s s' : St) (j : Nat) (x y : ShPhase) (h : s.killers[j]? = some y)
     (hxy : phaseW x < phaseW y) (hk : s'.killers = s.killers.set j x)
     (h1 : s'.runPc = s.runPc) (h2 : s'.runSh = s.runSh) (h3 : s'.el = s.el)
     (h4 : s'.dispAlive = s.dispAlive) (h5 : s'.sig = s.sig) (h6 : s'.resize = s.resize)
-    (h7 : s'.initG = s.initG) (h8 : s'.reader = s.reader) : rank s' < rank s := by
+    (h7 : s'.initG = s.initG) (h8 : s'.reader = s.reader) (h9 : s'.senders = s.senders) :
+    rank s' < rank s := by
   have := killersW_set (x := x) h
-  simp only [rank, runW, hk, h1, h2, h3, h4, h5, h6, h7, h8]
+  simp only [rank, runW, hk, h1, h2, h3, h4, h5, h6, h7, h8, h9]
   omega
 
 /-- every progress step strictly decreases the rank -/
@@ -23,26 +26,70 @@ theorem rank_decreases {s s' : St} {l : Label} (hp : progressLabel l = true)
     | (simp [progressLabel] at hp; done)
     | (simp_all [rank, runW, phaseW, elW, sigW, hW, readW, stageW]; done)
     | (simp_all [rank, runW, phaseW, elW, sigW, hW, readW, stageW]; omega)
-    | exact rank_setKiller _ _ _ _ _ (by assumption) (by decide) rfl rfl rfl rfl rfl rfl rfl rfl rfl
-    | exact rank_setKiller _ _ _ _ _ (And.left (by assumption)) (by decide) rfl rfl rfl rfl rfl rfl rfl rfl rfl
+    | (simp_all [rank, runW, phaseW, elW, sigW, hW, readW, stageW, sendersW_append, sendersW_user2]; done)
+    | (simp_all [rank, runW, phaseW, elW, sigW, hW, readW, stageW, sendersW_append, sendersW_user2]; omega)
+    | exact rank_setKiller _ _ _ _ _ (by assumption) (by decide) rfl rfl rfl rfl rfl rfl rfl rfl rfl rfl
+    | exact rank_setKiller _ _ _ _ _ (And.left (by assumption)) (by decide) rfl rfl rfl rfl rfl rfl rfl rfl rfl rfl
 
 /-- ... and so does every return of the user code of Run's start-up -/
-theorem rank_decreases_schedule {s s' : St} {l : Label} (hp : scheduleLabel l = true)
+theorem rank_decreases_startup {s s' : St} {l : Label} (hp : startupScheduleLabel l = true)
     (hs : step s l = some s') : rank s' < rank s := by
+  cases hpl : progressLabel l with
+  | true => exact rank_decreases hpl hs
+  | false =>
+    have hr : startupReturn l = true := by simpa [startupScheduleLabel, hpl] using hp
+    cases l <;> simp [startupReturn] at hr <;>
+      (simp only [step] at hs; split at hs <;> cases hs; simp_all [rank, runW, stageW])
+
+theorem sched_setKiller (s s' : St) (j : Nat) (x y : ShPhase) (h : s.killers[j]? = some y)
+    (hxy : phaseW x < phaseW y) (hk : s'.killers = s.killers.set j x)
+    (h1 : s'.runPc = s.runPc) (h2 : s'.runSh = s.runSh) (h3 : s'.el = s.el)
+    (h4 : s'.dispAlive = s.dispAlive) (h5 : s'.sig = s.sig) (h6 : s'.resize = s.resize)
+    (h7 : s'.initG = s.initG) (h8 : s'.reader = s.reader) (h9 : s'.senders = s.senders)
+    (h10 : pendW s' ≤ pendW s) : rank s' + pendW s' < rank s + pendW s := by
+  have := rank_setKiller s s' j x y h hxy hk h1 h2 h3 h4 h5 h6 h7 h8 h9
+  omega
+
+/-- the measure of the schedules: the rank, plus one for user code in progress on the loop (or to be
+entered by the Exec in progress), plus one for the listen goroutine inside the user's writer -/
+def sched (s : St) : Nat := rank s + pendW s
+
+/-- every progress step and every return of user code strictly decreases `sched` -/
+theorem sched_decreases {s s' : St} {l : Label} (hp : scheduleLabel l = true)
+    (hs : step s l = some s') : sched s' < sched s := by
+  unfold sched
   step_cases hs l
   all_goals first
-    | (simp [scheduleLabel, progressLabel, startupReturn] at hp; done)
-    | (simp_all [rank, runW, phaseW, elW, sigW, hW, readW, stageW]; done)
-    | (simp_all [rank, runW, phaseW, elW, sigW, hW, readW, stageW]; omega)
-    | exact rank_setKiller _ _ _ _ _ (by assumption) (by decide) rfl rfl rfl rfl rfl rfl rfl rfl rfl
-    | exact rank_setKiller _ _ _ _ _ (And.left (by assumption)) (by decide) rfl rfl rfl rfl rfl rfl rfl rfl rfl
+    | (simp [scheduleLabel, progressLabel, userReturn] at hp; done)
+    | (simp_all [rank, pendW, runW, phaseW, elW, sigW, hW, readW, stageW]; done)
+    | (simp_all [rank, pendW, runW, phaseW, elW, sigW, hW, readW, stageW]; omega)
+    | (simp_all [rank, pendW, runW, phaseW, elW, sigW, hW, readW, stageW, sendersW_append, sendersW_user2]; done)
+    | (simp_all [rank, pendW, runW, phaseW, elW, sigW, hW, readW, stageW, sendersW_append, sendersW_user2]; omega)
+    | exact sched_setKiller _ _ _ _ _ (by assumption) (by decide) rfl rfl rfl rfl rfl rfl rfl rfl rfl rfl
+        (Nat.le_refl _)
+    | exact sched_setKiller _ _ _ _ _ (by assumption) (by decide) rfl rfl rfl rfl rfl rfl rfl rfl rfl rfl
+        (by simp_all [pendW])
+    | exact sched_setKiller _ _ _ _ _ (And.left (by assumption)) (by decide) rfl rfl rfl rfl rfl rfl rfl rfl rfl rfl
+        (Nat.le_refl _)
 
 theorem rank_setKiller_le (s s' : St) (j : Nat) (x y : ShPhase) (h : s.killers[j]? = some y)
     (hxy : phaseW x ≤ phaseW y) (hk : s'.killers = s.killers.set j x)
     (h1 : s'.runPc = s.runPc) (h2 : s'.runSh = s.runSh) (h3 : s'.el = s.el)
     (h4 : s'.dispAlive = s.dispAlive) (h5 : s'.sig = s.sig) (h6 : s'.resize = s.resize)
-    (h7 : s'.initG = s.initG) (h8 : s'.reader = s.reader) : rank s' ≤ rank s := by
+    (h7 : s'.initG = s.initG) (h8 : s'.reader = s.reader) (h9 : s'.senders = s.senders) :
+    rank s' ≤ rank s := by
   have := killersW_set (x := x) h
+  simp only [rank, runW, hk, h1, h2, h3, h4, h5, h6, h7, h8, h9]
+  omega
+
+/-- a step that changes one Send caller (and possibly the loop) does not increase the rank if it does
+not increase the caller's and the loop's shares together -/
+theorem rank_setSender_le (s s' : St) (j : Nat) (x y : Caller) (h : s.senders[j]? = some y)
+    (hk : s'.senders = s.senders.set j x) (hw : callerW x + elW s'.el ≤ callerW y + elW s.el)
+    (h1 : s'.runPc = s.runPc) (h2 : s'.runSh = s.runSh) (h3 : s'.killers = s.killers)
+    (h4 : s'.dispAlive = s.dispAlive) (h5 : s'.sig = s.sig) (h6 : s'.resize = s.resize)
+    (h7 : s'.initG = s.initG) (h8 : s'.reader = s.reader) : rank s' ≤ rank s := by
+  have := sendersW_set (x := x) h
   simp only [rank, runW, hk, h1, h2, h3, h4, h5, h6, h7, h8]
   omega
 
@@ -55,8 +102,14 @@ theorem rank_le {s s' : St} {l : Label} (hl : l ≠ .killCall)
     | exact Nat.le_refl _
     | (simp_all [rank, runW, phaseW, elW, sigW, hW, readW, stageW]; done)
     | (simp_all [rank, runW, phaseW, elW, sigW, hW, readW, stageW]; omega)
-    | exact rank_setKiller_le _ _ _ _ _ (by assumption) (by decide) rfl rfl rfl rfl rfl rfl rfl rfl rfl
-    | exact rank_setKiller_le _ _ _ _ _ (And.left (by assumption)) (by decide) rfl rfl rfl rfl rfl rfl rfl rfl rfl
+    | (simp_all [rank, runW, phaseW, elW, sigW, hW, readW, stageW, sendersW_append, sendersW_user1, sendersW_user2]; done)
+    | (simp_all [rank, runW, phaseW, elW, sigW, hW, readW, stageW, sendersW_append, sendersW_user1, sendersW_user2]; omega)
+    | (refine rank_setSender_le _ _ _ _ _ (by assumption) rfl ?_ rfl rfl rfl rfl rfl rfl rfl rfl
+       simp_all [callerW, elW]; done)
+    | (refine rank_setSender_le _ _ _ _ _ (by assumption) rfl ?_ rfl rfl rfl rfl rfl rfl rfl rfl
+       simp_all [callerW, elW]; split <;> simp_all; done)
+    | exact rank_setKiller_le _ _ _ _ _ (by assumption) (by decide) rfl rfl rfl rfl rfl rfl rfl rfl rfl rfl
+    | exact rank_setKiller_le _ _ _ _ _ (And.left (by assumption)) (by decide) rfl rfl rfl rfl rfl rfl rfl rfl rfl rfl
 
 /-- a new shutdown caller adds its seven phases (six steps) of work -/
 theorem rank_killCall {s s' : St} (hs : step s .killCall = some s') : rank s' = rank s + 6 := by
@@ -143,7 +196,7 @@ theorem no_deadlock {c : Config} {s : St} (hr : Reachable c s) (ht : Terminating
     ∃ l, progressLabel l = true ∧ (step s l).isSome = true := by
   have I := inv_ctx hr
   have S := inv_start hr
-  obtain ⟨hcb, hvw, hfl, hmw, hic, hfv⟩ := hc
+  obtain ⟨hcb, hvw, hfl, hmw, hic, hfv, hxc⟩ := hc
   cases hpc : s.runPc with
   | returned => exact absurd hpc hn
   | starting p =>
@@ -171,6 +224,28 @@ theorem no_deadlock {c : Config} {s : St} (hr : Reachable c s) (ht : Terminating
     | callback => exact absurd hel hcb
     | view => exact absurd hel hvw
     | exited cz => exact ⟨.runTail, rfl, by simp [step, hel, hpc]⟩
+    | execCmd => exact absurd hel hxc
+    | execRelease ph =>
+      cases ph with
+      | cancelReader => exact ⟨.exRelCancel, rfl, by simp [step, hel]⟩
+      | waitRead => exact ⟨.exRelWaitTimeout, rfl, by simp [step, hel]⟩
+      | renderer =>
+        refine ⟨.exRelRenderer, rfl, ?_⟩
+        simp only [step, hel, if_true]
+        split
+        · rfl
+        · cases hl : s.listen with
+          | flushing => exact absurd hl hfl
+          | _ => rfl
+      | restore => exact ⟨.exRelRestore, rfl, by simp [step, hel]⟩
+    | execRestore ph =>
+      cases ph with
+      | reader =>
+        refine ⟨.exResReader, rfl, ?_⟩
+        simp only [step, hel, if_true]
+        split <;> rfl
+      | renderer => exact ⟨.exResRenderer, rfl, by simp [step, hel]⟩
+      | spawn => exact ⟨.exResSpawn, rfl, by simp [step, hel]⟩
     | select =>
       by_cases hctx : s.ctxDone = true
       · exact ⟨.elCtxExit, rfl, by simp [step, hel, hctx]⟩
@@ -199,10 +274,11 @@ theorem no_deadlock {c : Config} {s : St} (hr : Reachable c s) (ht : Terminating
     | restore => exact ⟨.shRestore none, rfl, by simp [step, phaseOf, hpc, hsh]⟩
     | done => exact ⟨.runReturn, rfl, by simp [step, hpc, hsh]⟩
 
-/-- the same when Run may be inside the user code of its start-up: then that code's return is the
-enabled step -/
+/-- the same with user code in progress anywhere: then the return of that code is the enabled step.
+In EVERY reachable state in which termination has begun and Run has not returned, a progress step
+or the return of user code in progress is enabled -/
 theorem no_deadlock_schedule {c : Config} {s : St} (hr : Reachable c s) (ht : Terminating s)
-    (hn : s.runPc ≠ .returned) (hq : LoopQuiet s) :
+    (hn : s.runPc ≠ .returned) :
     ∃ l, scheduleLabel l = true ∧ (step s l).isSome = true := by
   by_cases h1 : s.runPc = .starting .modeWrites
   · exact ⟨.startWriterReturns, rfl, by simp [step, h1]⟩
@@ -210,15 +286,38 @@ theorem no_deadlock_schedule {c : Config} {s : St} (hr : Reachable c s) (ht : Te
   · exact ⟨.initReturns, rfl, by simp [step, h2]⟩
   by_cases h3 : s.runPc = .starting .firstView
   · exact ⟨.firstViewReturns, rfl, by simp [step, h3]⟩
-  obtain ⟨l, hp, he⟩ := no_deadlock hr ht hn ⟨hq.1, hq.2.1, hq.2.2, h1, h2, h3⟩
+  by_cases h4 : s.el = .callback
+  · exact ⟨.callbackReturns, rfl, by simp [step, h4]⟩
+  by_cases h5 : s.el = .view
+  · exact ⟨.viewReturns, rfl, by simp [step, h5]⟩
+  by_cases h6 : s.listen = .flushing
+  · exact ⟨.writerReturns, rfl, by simp [step, h6]⟩
+  by_cases h7 : s.el = .execCmd
+  · exact ⟨.execCmdReturns, rfl, by simp [step, h7]⟩
+  obtain ⟨l, hp, he⟩ := no_deadlock hr ht hn ⟨h4, h5, h6, h1, h2, h3, h7⟩
   exact ⟨l, by simp [scheduleLabel, hp], he⟩
+
+/-- outside an Exec and with no user code in progress on the loop or the listen goroutine, a
+progress step or the return of the start-up's user code is enabled -/
+theorem no_deadlock_startup {c : Config} {s : St} (hr : Reachable c s) (ht : Terminating s)
+    (hn : s.runPc ≠ .returned) (hq : LoopQuiet s) (hex : s.el.inExec = false) :
+    ∃ l, startupScheduleLabel l = true ∧ (step s l).isSome = true := by
+  by_cases h1 : s.runPc = .starting .modeWrites
+  · exact ⟨.startWriterReturns, rfl, by simp [step, h1]⟩
+  by_cases h2 : s.runPc = .starting .initCall
+  · exact ⟨.initReturns, rfl, by simp [step, h2]⟩
+  by_cases h3 : s.runPc = .starting .firstView
+  · exact ⟨.firstViewReturns, rfl, by simp [step, h3]⟩
+  have h7 : s.el ≠ .execCmd := by intro h; rw [h] at hex; cases hex
+  obtain ⟨l, hp, he⟩ := no_deadlock hr ht hn ⟨hq.1, hq.2.1, hq.2.2, h1, h2, h3, h7⟩
+  exact ⟨l, by simp [startupScheduleLabel, hp], he⟩
 
 /-- a shutdown call on another goroutine (Kill(), a panic handler) cannot be blocked either -/
 theorem killer_no_deadlock {c : Config} {s : St} (hr : Reachable c s) (hc : NoCallback s)
     (j : Nat) (ph : ShPhase) (hj : s.killers[j]? = some ph) (hph : ph ≠ .done) :
     ∃ l, progressLabel l = true ∧ (step s l).isSome = true := by
   have I := inv_ctx hr
-  obtain ⟨hcb, hvw, hfl, _, _, _⟩ := hc
+  obtain ⟨hcb, hvw, hfl, _, _, _, _⟩ := hc
   cases ph with
   | done => exact absurd rfl hph
   | cancel => exact ⟨.shCancel (some j), rfl, by simp [step, phaseOf, hj]⟩
@@ -249,16 +348,16 @@ theorem terminating_runLabels {s s' : St} (ls : List Label) (h : runLabels s ls 
     · rename_i s1 h1; exact ih h (terminating_stable h1 ht)
     · cases h
 
-/-- the scheme of every "Run returns" theorem: if every step of an alphabet `A` decreases the rank
-and keeps an invariant `I`, and `I` enables some step of `A` as long as Run has not returned, then
-from every state with `I` a schedule of at most `rank s` steps of `A`, each enabled in turn, leads
+/-- the scheme of every "Run returns" theorem: if every step of an alphabet `A` decreases a measure
+`μ` and keeps an invariant `I`, and `I` enables some step of `A` as long as Run has not returned, then
+from every state with `I` a schedule of at most `μ s` steps of `A`, each enabled in turn, leads
 to a state with `I` in which Run has returned -/
-theorem schedule_exists (A : Label → Bool) (I : St → Prop)
-    (hdec : ∀ s s' l, A l = true → step s l = some s' → rank s' < rank s)
+theorem schedule_exists (A : Label → Bool) (I : St → Prop) (μ : St → Nat)
+    (hdec : ∀ s s' l, A l = true → step s l = some s' → μ s' < μ s)
     (hI : ∀ s s' l, I s → A l = true → step s l = some s' → I s')
     (hen : ∀ s, I s → s.runPc ≠ .returned → ∃ l, A l = true ∧ (step s l).isSome = true) :
-    ∀ (n : Nat) {s : St}, rank s ≤ n → I s →
-      ∃ ls s', (∀ l ∈ ls, A l = true) ∧ ls.length ≤ rank s ∧ runLabels s ls = some s' ∧ I s' ∧
+    ∀ (n : Nat) {s : St}, μ s ≤ n → I s →
+      ∃ ls s', (∀ l ∈ ls, A l = true) ∧ ls.length ≤ μ s ∧ runLabels s ls = some s' ∧ I s' ∧
         s'.runPc = .returned := by
   intro n
   induction n with
@@ -286,68 +385,89 @@ theorem schedule_exists (A : Label → Bool) (I : St → Prop)
       · simp only [List.length_cons]; omega
       · simp only [runLabels, hs1]; exact hrun
 
-/-- from every reachable terminating state with no callback in progress on the loop and the listen
-goroutine, at most `rank s` steps - progress steps and, while Run is starting up, the returns of the
-start-up's user code -, each enabled in turn, bring Run to its return -/
-theorem run_returns {c : Config} {s : St} (hr : Reachable c s) (ht : Terminating s) (hq : LoopQuiet s) :
-    ∃ ls s', (∀ l ∈ ls, scheduleLabel l = true) ∧ ls.length ≤ rank s ∧ runLabels s ls = some s' ∧
-      s'.runPc = .returned := by
+/-- from EVERY reachable state in which termination has begun, at most `rank s + pendW s` steps -
+progress steps and the returns of user code (in progress, or still to be called by a Run that is
+starting up / a loop that is inside an Exec) -, each enabled in turn, bring Run to its return -/
+theorem run_returns {c : Config} {s : St} (hr : Reachable c s) (ht : Terminating s) :
+    ∃ ls s', (∀ l ∈ ls, scheduleLabel l = true) ∧ ls.length ≤ rank s + pendW s ∧
+      runLabels s ls = some s' ∧ s'.runPc = .returned := by
   obtain ⟨ls, s', h1, h2, h3, _, h5⟩ :=
-    schedule_exists scheduleLabel (fun s => Reachable c s ∧ Terminating s ∧ LoopQuiet s)
-      (fun _ _ _ hp hs => rank_decreases_schedule hp hs)
-      (fun _ _ l hi hp hs =>
-        ⟨Reachable.step l hi.1 hs, terminating_stable hs hi.2.1, loopQuiet_schedule hp hs hi.2.2⟩)
-      (fun _ hi hn => no_deadlock_schedule hi.1 hi.2.1 hn hi.2.2)
-      (rank s) (Nat.le_refl _) ⟨hr, ht, hq⟩
+    schedule_exists scheduleLabel (fun s => Reachable c s ∧ Terminating s) sched
+      (fun _ _ _ hp hs => sched_decreases hp hs)
+      (fun _ _ l hi hp hs => ⟨Reachable.step l hi.1 hs, terminating_stable hs hi.2⟩)
+      (fun _ hi hn => no_deadlock_schedule hi.1 hi.2 hn)
+      (sched s) (Nat.le_refl _) ⟨hr, ht⟩
   exact ⟨ls, s', h1, h2, h3, h5⟩
 
-/-- once Run is past its start-up (in its loop or its tail), progress steps ALONE do it: the
-statement of the model that started at the loop, for every state of the extended model in which the
-start-up is over -/
+/-- when the loop is not inside an Exec and no user code is in progress on the loop or the listen
+goroutine - Run may be at any stage of its start-up -, at most `rank s` steps do it: progress steps and
+the returns of the start-up's user code -/
+theorem run_returns_quiet {c : Config} {s : St} (hr : Reachable c s) (ht : Terminating s)
+    (hq : LoopQuiet s) (hex : s.el.inExec = false) :
+    ∃ ls s', (∀ l ∈ ls, startupScheduleLabel l = true) ∧ ls.length ≤ rank s ∧ runLabels s ls = some s' ∧
+      s'.runPc = .returned := by
+  obtain ⟨ls, s', h1, h2, h3, _, h5⟩ :=
+    schedule_exists startupScheduleLabel
+      (fun s => Reachable c s ∧ Terminating s ∧ LoopQuiet s ∧ s.el.inExec = false) rank
+      (fun _ _ _ hp hs => rank_decreases_startup hp hs)
+      (fun _ _ l hi hp hs =>
+        ⟨Reachable.step l hi.1 hs, terminating_stable hs hi.2.1,
+          quiet_startupSchedule hp hs hi.2.2.1 hi.2.2.2⟩)
+      (fun _ hi hn => no_deadlock_startup hi.1 hi.2.1 hn hi.2.2.1 hi.2.2.2)
+      (rank s) (Nat.le_refl _) ⟨hr, ht, hq, hex⟩
+  exact ⟨ls, s', h1, h2, h3, h5⟩
+
+/-- once Run is past its start-up (in its loop or its tail) and the loop is not inside an Exec,
+progress steps ALONE do it, at most `rank s` of them: the statement of the model that started at the
+loop and had no Exec, for every state of the extended model in which neither is in progress -/
 theorem run_returns_past {c : Config} {s : St} (hr : Reachable c s) (ht : Terminating s)
-    (hc : NoCallback s) (hpast : ∀ p, s.runPc ≠ .starting p) :
+    (hc : NoCallback s) (hpast : ∀ p, s.runPc ≠ .starting p) (hex : s.el.inExec = false) :
     ∃ ls s', (∀ l ∈ ls, progressLabel l = true) ∧ ls.length ≤ rank s ∧ runLabels s ls = some s' ∧
       s'.runPc = .returned := by
   obtain ⟨ls, s', h1, h2, h3, _, h5⟩ :=
     schedule_exists progressLabel
-      (fun s => Reachable c s ∧ Terminating s ∧ NoCallback s ∧ ∀ p, s.runPc ≠ .starting p)
+      (fun s => Reachable c s ∧ Terminating s ∧ NoCallback s ∧ (∀ p, s.runPc ≠ .starting p) ∧
+        s.el.inExec = false) rank
       (fun _ _ _ hp hs => rank_decreases hp hs)
       (fun _ _ l hi hp hs =>
         ⟨Reachable.step l hi.1 hs, terminating_stable hs hi.2.1,
-          noCallback_progress_past hp hs hi.2.2.2 hi.2.2.1⟩)
+          noCallback_progress_past hp hs hi.2.2.2.1 hi.2.2.2.2 hi.2.2.1⟩)
       (fun _ hi hn => no_deadlock hi.1 hi.2.1 hn hi.2.2.1)
-      (rank s) (Nat.le_refl _) ⟨hr, ht, hc, hpast⟩
+      (rank s) (Nat.le_refl _) ⟨hr, ht, hc, hpast, hex⟩
   exact ⟨ls, s', h1, h2, h3, h5⟩
 
-/-- steps of the schedule alphabet alone, at most `rank s` of them, lead to a state in which none
-is enabled; no user code is in progress there -/
-theorem run_to_quiescence : ∀ (n : Nat) {s : St}, rank s ≤ n → LoopQuiet s →
-    ∃ ls s', (∀ l ∈ ls, scheduleLabel l = true) ∧ ls.length ≤ rank s ∧ runLabels s ls = some s' ∧
+/-- steps of the schedule alphabet alone, at most `rank s + pendW s` of them, lead to a state in which
+none is enabled; no user code is in progress there -/
+theorem run_to_quiescence : ∀ (n : Nat) {s : St}, sched s ≤ n →
+    ∃ ls s', (∀ l ∈ ls, scheduleLabel l = true) ∧ ls.length ≤ sched s ∧ runLabels s ls = some s' ∧
       NoCallback s' ∧ ∀ l, scheduleLabel l = true → step s' l = none := by
-  have fin : ∀ s : St, LoopQuiet s → (∀ l, scheduleLabel l = true → step s l = none) → NoCallback s := by
-    intro s hq hnone
-    refine ⟨hq.1, hq.2.1, hq.2.2, ?_, ?_, ?_⟩
+  have fin : ∀ s : St, (∀ l, scheduleLabel l = true → step s l = none) → NoCallback s := by
+    intro s hnone
+    refine ⟨?_, ?_, ?_, ?_, ?_, ?_, ?_⟩
+    · intro h; have := hnone .callbackReturns rfl; simp [step, h] at this
+    · intro h; have := hnone .viewReturns rfl; simp [step, h] at this
+    · intro h; have := hnone .writerReturns rfl; simp [step, h] at this
     · intro h; have := hnone .startWriterReturns rfl; simp [step, h] at this
     · intro h; have := hnone .initReturns rfl; simp [step, h] at this
     · intro h; have := hnone .firstViewReturns rfl; simp [step, h] at this
+    · intro h; have := hnone .execCmdReturns rfl; simp [step, h] at this
   intro n
   induction n with
   | zero =>
-    intro s hn hc
+    intro s hn
     have hnone : ∀ l, scheduleLabel l = true → step s l = none := by
       intro l hp
       cases hs : step s l with
       | none => rfl
-      | some s1 => have := rank_decreases_schedule hp hs; omega
-    exact ⟨[], s, by simp, by simp, rfl, fin s hc hnone, hnone⟩
+      | some s1 => have := sched_decreases hp hs; omega
+    exact ⟨[], s, by simp, by simp, rfl, fin s hnone, hnone⟩
   | succ n ih =>
-    intro s hn hc
+    intro s hn
     by_cases hex : ∃ l, scheduleLabel l = true ∧ (step s l).isSome = true
     · obtain ⟨l, hp, hen⟩ := hex
       obtain ⟨s1, hs1⟩ := Option.isSome_iff_exists.1 hen
-      have hlt := rank_decreases_schedule hp hs1
-      obtain ⟨ls, s2, hall, hlen, hrun, hc2, hq⟩ :=
-        ih (s := s1) (by omega) (loopQuiet_schedule hp hs1 hc)
+      have hlt := sched_decreases hp hs1
+      obtain ⟨ls, s2, hall, hlen, hrun, hc2, hq⟩ := ih (s := s1) (by omega)
       refine ⟨l :: ls, s2, ?_, ?_, ?_, hc2, hq⟩
       · intro l' hl'
         rcases List.mem_cons.1 hl' with h | h
@@ -360,17 +480,85 @@ theorem run_to_quiescence : ∀ (n : Nat) {s : St}, rank s ≤ n → LoopQuiet s
         cases hs : step s l with
         | none => rfl
         | some s1 => exact absurd ⟨l, hp, by rw [hs]; rfl⟩ hex
-      exact ⟨[], s, by simp, by simp, rfl, fin s hc hnone, hnone⟩
+      exact ⟨[], s, by simp, by simp, rfl, fin s hnone, hnone⟩
 
 /-- ... and in that state every shutdown call has completed: Run has returned (if termination
 had begun) and every Kill() / panic handler has finished its shutdown -/
-theorem everybody_done {c : Config} {s : St} (hr : Reachable c s) (hc : LoopQuiet s) :
-    ∃ ls s', (∀ l ∈ ls, scheduleLabel l = true) ∧ ls.length ≤ rank s ∧ runLabels s ls = some s' ∧
+theorem everybody_done {c : Config} {s : St} (hr : Reachable c s) :
+    ∃ ls s', (∀ l ∈ ls, scheduleLabel l = true) ∧ ls.length ≤ rank s + pendW s ∧
+      runLabels s ls = some s' ∧
       (Terminating s → s'.runPc = .returned) ∧ (∀ (j : Nat) (ph : ShPhase), s'.killers[j]? = some ph → ph = .done) := by
-  obtain ⟨ls, s', hall, hlen, hrun, hc', hq⟩ := run_to_quiescence (rank s) (Nat.le_refl _) hc
+  obtain ⟨ls, s', hall, hlen, hrun, hc', hq⟩ := run_to_quiescence (sched s) (Nat.le_refl _)
   have hr' := reachable_runLabels ls hr hrun
   have hq' : ∀ l, progressLabel l = true → step s' l = none :=
     fun l hp => hq l (by simp [scheduleLabel, hp])
+  refine ⟨ls, s', hall, hlen, hrun, ?_, ?_⟩
+  · intro ht
+    apply Classical.byContradiction
+    intro hn
+    obtain ⟨l, hp, he⟩ := no_deadlock hr' (terminating_runLabels ls hrun ht) hn hc'
+    rw [hq' l hp] at he
+    cases he
+  · intro j ph hj
+    apply Classical.byContradiction
+    intro hn
+    obtain ⟨l, hp, he⟩ := killer_no_deadlock hr' hc' j ph hj hn
+    rw [hq' l hp] at he
+    cases he
+
+/-- the same outside an Exec with no user code in progress on the loop or the listen goroutine:
+progress steps and returns of the start-up's user code, at most `rank s` of them -/
+theorem run_to_quiescence_quiet : ∀ (n : Nat) {s : St}, rank s ≤ n → LoopQuiet s → s.el.inExec = false →
+    ∃ ls s', (∀ l ∈ ls, startupScheduleLabel l = true) ∧ ls.length ≤ rank s ∧ runLabels s ls = some s' ∧
+      NoCallback s' ∧ ∀ l, startupScheduleLabel l = true → step s' l = none := by
+  have fin : ∀ s : St, LoopQuiet s → s.el.inExec = false →
+      (∀ l, startupScheduleLabel l = true → step s l = none) → NoCallback s := by
+    intro s hq hx hnone
+    refine ⟨hq.1, hq.2.1, hq.2.2, ?_, ?_, ?_, ?_⟩
+    · intro h; have := hnone .startWriterReturns rfl; simp [step, h] at this
+    · intro h; have := hnone .initReturns rfl; simp [step, h] at this
+    · intro h; have := hnone .firstViewReturns rfl; simp [step, h] at this
+    · intro h; rw [h] at hx; cases hx
+  intro n
+  induction n with
+  | zero =>
+    intro s hn hc hx
+    have hnone : ∀ l, startupScheduleLabel l = true → step s l = none := by
+      intro l hp
+      cases hs : step s l with
+      | none => rfl
+      | some s1 => have := rank_decreases_startup hp hs; omega
+    exact ⟨[], s, by simp, by simp, rfl, fin s hc hx hnone, hnone⟩
+  | succ n ih =>
+    intro s hn hc hx
+    by_cases hex : ∃ l, startupScheduleLabel l = true ∧ (step s l).isSome = true
+    · obtain ⟨l, hp, hen⟩ := hex
+      obtain ⟨s1, hs1⟩ := Option.isSome_iff_exists.1 hen
+      have hlt := rank_decreases_startup hp hs1
+      obtain ⟨hc1, hx1⟩ := quiet_startupSchedule hp hs1 hc hx
+      obtain ⟨ls, s2, hall, hlen, hrun, hc2, hq⟩ := ih (s := s1) (by omega) hc1 hx1
+      refine ⟨l :: ls, s2, ?_, ?_, ?_, hc2, hq⟩
+      · intro l' hl'
+        rcases List.mem_cons.1 hl' with h | h
+        · rw [h]; exact hp
+        · exact hall l' h
+      · simp only [List.length_cons]; omega
+      · simp only [runLabels, hs1]; exact hrun
+    · have hnone : ∀ l, startupScheduleLabel l = true → step s l = none := by
+        intro l hp
+        cases hs : step s l with
+        | none => rfl
+        | some s1 => exact absurd ⟨l, hp, by rw [hs]; rfl⟩ hex
+      exact ⟨[], s, by simp, by simp, rfl, fin s hc hx hnone, hnone⟩
+
+theorem everybody_done_quiet {c : Config} {s : St} (hr : Reachable c s) (hc : LoopQuiet s)
+    (hx : s.el.inExec = false) :
+    ∃ ls s', (∀ l ∈ ls, startupScheduleLabel l = true) ∧ ls.length ≤ rank s ∧ runLabels s ls = some s' ∧
+      (Terminating s → s'.runPc = .returned) ∧ (∀ (j : Nat) (ph : ShPhase), s'.killers[j]? = some ph → ph = .done) := by
+  obtain ⟨ls, s', hall, hlen, hrun, hc', hq⟩ := run_to_quiescence_quiet (rank s) (Nat.le_refl _) hc hx
+  have hr' := reachable_runLabels ls hr hrun
+  have hq' : ∀ l, progressLabel l = true → step s' l = none :=
+    fun l hp => hq l (by simp [startupScheduleLabel, hp])
   refine ⟨ls, s', hall, hlen, hrun, ?_, ?_⟩
   · intro ht
     apply Classical.byContradiction
